@@ -114,6 +114,15 @@ func outputQueryAndErrPos(query string, pos int, adjust int) string {
 	qlen := len(tquery)
 	if pos == -1 {
 		pos = qlen
+	} else {
+		// pos is an offset in the query as written, the leading spaces
+		// removed above must not be counted
+		pos -= strings.Index(query, tquery)
+		if pos < 0 {
+			pos = 0
+		} else if pos > qlen {
+			pos = qlen
+		}
 	}
 	trimLeft := false
 	trimRight := false
